@@ -417,17 +417,49 @@ class Fields(Spec):
         return out
 
 
+class Shared(Spec):
+    """one object referenced from several places of the input (e.g. the
+    catalyst site shared by all adsorbates): built once per run under the
+    canonical name '$<key>'"""
+
+    def __init__(self, key, spec):
+        self.key = key
+        self.spec = spec
+
+    def _nm(self):
+        return '$' + self.key
+
+    def sym(self, B, name):
+        cache = B.__dict__.setdefault('shared', {})
+        if self.key not in cache:
+            cache[self.key] = self.spec.sym(B, self._nm())
+        return cache[self.key]
+
+    def sample(self, rng, name, asg):
+        if ('$shared:' + self.key) not in asg:
+            asg['$shared:' + self.key] = True
+            self.spec.sample(rng, self._nm(), asg)
+
+    def desc(self, name, asg):
+        return {'k': 'shared', 'key': self.key,
+                'd': self.spec.desc(self._nm(), asg)}
+
+    def leaf_names(self, name):
+        return self.spec.leaf_names(self._nm())
+
+
 class StubV:
     """abstract callee: an object whose listed getters are *pure functions of
     their keyword arguments* and otherwise unknown.  Symbolically every
     distinct (method, arguments) pair yields one fresh real constant."""
 
-    def __init__(self, name, attrs, methods, positive, B):
+    def __init__(self, name, attrs, methods, positive, B, ignores=()):
         self.name = name
         self.attrs = attrs
         self.methods = methods
         self.positive = positive
         self.B = B
+        self.ignores = tuple(ignores)
         self.memo = {}        # key -> (method, kwargs values, const)
         self.calls = []
 
@@ -450,6 +482,8 @@ class StubV:
         from .values import raise_
         if args:
             raise_('TypeError', 'stub getters take keyword arguments only')
+        # keywords the modelled callee is assumed to swallow unread
+        kw = {k: v for k, v in kw.items() if k not in self.ignores}
         key = method + '(' + ','.join('%s=%s' % (k, _vkey(kw[k]))
                                       for k in sorted(kw)) + ')'
         self.calls.append((method, dict(kw)))
@@ -484,17 +518,20 @@ class Stub(Spec):
           'use_references', 'raise_error', 'raise_warning', 'units', 'rev',
           'ignore_q_elec')
 
-    def __init__(self, stub_name, methods, positive=('get_q',), **attrs):
+    def __init__(self, stub_name, methods, positive=('get_q',), ignores=(),
+                 **attrs):
         self.name = stub_name
         self.methods = list(methods)
         self.positive = tuple(positive)
+        self.ignores = tuple(ignores)
         self.attrs = dict(attrs)
         self.attrs.setdefault('name', stub_name)
 
     def sym(self, B, name):
         attrs = {k: (v.sym(B, '%s.%s' % (name, k)) if isinstance(v, Spec)
                      else _to_sym_const(v)) for k, v in self.attrs.items()}
-        st = StubV(self.name, attrs, self.methods, self.positive, B)
+        st = StubV(self.name, attrs, self.methods, self.positive, B,
+                   self.ignores)
         B.stubs[name] = st
         return st
 
@@ -520,7 +557,7 @@ class Stub(Spec):
                         else ({'k': 'none'} if v is None else
                               {'k': 'const', 'v': v}))
                     for k, v in self.attrs.items()},
-                'methods': methods,
+                'methods': methods, 'ignores': list(self.ignores),
                 'table': asg.get(name + '.__table__', [])}
 
     def leaf_names(self, name):
